@@ -142,7 +142,7 @@ func c17ScaleRun(tier string, seed uint64, i int) []h.Result {
 	for _, n := range sizes {
 		a := gen.Atom{Cat: "scale", Decl: "type Rec struct{ Next *Rec }", Stmt: fam.gen(n)}
 		src := a.Program()
-		o := drive.Build(sharedUniverse(), []string{src}, drive.Opt{NoCompare: true, NoRef: true})
+		o := drive.Build(sharedUniverse(), []string{src}, drive.Opt{NoCompare: true, NoRef: true, NoWrite: true})
 		if o.Status == "crash" {
 			res.Verdict, res.Kind, res.Detail = h.Violated, "crash: "+o.CrashSig, fmt.Sprintf("n=%d: %s\n%s", n, o.Msg, o.Stack)
 			return []h.Result{res}
